@@ -16,6 +16,9 @@ struct verif_in {
 	snapraid_info info;
 	time_t info_now, info_oldest;
 	unsigned prevhash;
+	/* mapping index guards */
+	uint32_t map_value, mapping_max;
+	int map_ret;
 };
 VERIF_DECLARE_IN
 
@@ -132,6 +135,66 @@ void h_crc_record(void)
 	region_crc_check(0, "content", &checked);
 	VERIF_ASSERT(checked == 1 && g_get32_ret == 0 && g_stored_value == g_scrc_value, "the content file counts as checked only when the stored CRC equals the computed one");
 	VERIF_ASSERT(g_scrc_when == 1 && g_get32_when == 2, "the CRC is taken before the stored value is read");
+	VERIF_CANARY();
+}
+#endif
+
+
+/*
+ * Disk mapping index of the 'f' 'h' 's' 'a' 'r' records: each decoder runs BEFORE the final CRC comparison, so each must
+ * itself reject an index that does not name a mapped disk - the mapping vector is only ever read inside its bounds.
+ */
+#ifdef VERIF_MAP_REGIONS
+static struct snapraid_disk MAPPED_DISK;
+static unsigned g_array_calls;
+static uint32_t g_array_pos;
+static int g_aborted_ok;
+static void *m_array_get(tommy_array *array, tommy_size_t pos)
+{
+	(void)array;
+	++g_array_calls;
+	g_array_pos = (uint32_t)pos;
+	VERIF_ASSERT(pos < IN.mapping_max, "the disk mapping vector is read only at an index below the number of mapped disks");
+	return &MAPPED_DISK;
+}
+static int m_sgetb32(STREAM *s, uint32_t *value) { (void)s; if (IN.map_ret >= 0) *value = IN.map_value; return IN.map_ret >= 0 ? 0 : -1; }
+static void m_abort(void)
+{
+	VERIF_ASSERT(IN.map_ret < 0 || IN.map_value >= IN.mapping_max, "a record with a valid mapping index is not rejected");
+#ifdef VERIF_CBMC
+	__CPROVER_assume(0);
+#else
+	printf("VERIF-REJECTED-AS-EXPECTED\n");
+	fflush(stdout);
+	_exit(0);
+#endif
+}
+#define tommy_array_get m_array_get
+#define sgetb32 m_sgetb32
+#define os_abort m_abort
+#define disk_mapping (*disk_mapping_p)
+#include "region_map_f.c"
+#include "region_map_h.c"
+#include "region_map_s.c"
+#include "region_map_a.c"
+#include "region_map_r.c"
+#undef tommy_array_get
+#undef sgetb32
+#undef os_abort
+#undef disk_mapping
+
+#ifndef MAP_RECORD
+#define MAP_RECORD region_map_f
+#endif
+void h_map_guard(void)
+{
+	static tommy_array A;
+	struct snapraid_disk *d;
+	VERIF_INPUTS();
+	g_array_calls = 0;
+	d = MAP_RECORD(0, "content", IN.mapping_max, &A);
+	VERIF_ASSERT(IN.map_ret >= 0 && IN.map_value < IN.mapping_max, "the decoder goes on only with an index that names a mapped disk");
+	VERIF_ASSERT(g_array_calls == 1 && g_array_pos == IN.map_value && d == &MAPPED_DISK, "and uses the disk that index names");
 	VERIF_CANARY();
 }
 #endif
